@@ -6,6 +6,7 @@ Require Import FstV.proofs.BuilderInv FstV.proofs.BuilderRegLemmas FstV.proofs.B
                FstV.proofs.BuilderProofs1 FstV.proofs.BuilderProofs2 FstV.proofs.BuilderProofs3
                FstV.proofs.BuilderProofs4 FstV.proofs.BuilderNodeBytes FstV.proofs.BuilderGraphFacts
                FstV.proofs.StreamGraphLemmas FstV.proofs.StreamProofs.
+Require Import FstV.Generated.SrcParams.
 Require Import Lia ZifyN ZifyBool ZifyNat.
 
 Lemma skipn_app_exact {A} (l1 l2 : list A) n : length l1 = n -> skipn n (l1 ++ l2) = l2.
@@ -18,28 +19,32 @@ Proof.
   - destruct H as (H1 & _ & H3 & _ & H5). specialize (IH H1). unfold len in *. cbn [length]. lia.
 Qed.
 
-(* a file = header, tiled node area, footer, checksum: the format specification accepts it *)
-Lemma spec_parse_built ty E bd flen root ck :
-  store_ok E -> firstn 16 bd = u64_le 3 ++ u64_le ty -> len bd = top_addr E + 1 -> tiles_inv E bd ->
+(* a file = header, tiled node area, footer, checksum (version 3 only): the format specification accepts it *)
+Lemma spec_parse_built ver ty E bd flen root ck :
+  1 <= ver <= 3 ->
+  store_ok E -> firstn 16 bd = u64_le ver ++ u64_le ty -> len bd = top_addr E + 1 -> tiles_inv ver E bd ->
   ty < U64 -> flen < U64 -> root < U64 -> ck < 4294967296 ->
   (E = [] /\ root = 0 \/ E <> [] /\ root = top_addr E) ->
-  spec_parse (bd ++ u64_le flen ++ u64_le root ++ u32_le ck) =
-    Some (mkParsed 3 ty flen root (Some ck)
+  spec_parse (bd ++ u64_le flen ++ u64_le root ++ (if 3 <=? ver then u32_le ck else [])) =
+    Some (mkParsed ver ty flen root (if 3 <=? ver then Some ck else None)
                    (if root =? 0 then [] else rev E)
                    (if root =? 0 then [([], 0)] else elang E root)).
 Proof.
-  intros HE Hhdr Hlen Htiles Hty Hflen Hroot Hck Hcase.
+  intros Hver HE Hhdr Hlen Htiles Hty Hflen Hroot Hck Hcase.
   pose proof (store_top_ge _ HE) as Htop.
-  set (bs := bd ++ u64_le flen ++ u64_le root ++ u32_le ck).
+  set (ckb := if 3 <=? ver then u32_le ck else []).
+  set (fl := if 3 <=? ver then 4%nat else 0%nat).
+  set (bs := bd ++ u64_le flen ++ u64_le root ++ ckb).
   assert (Hbdl : (16 <= length bd)%nat) by (unfold len in Hlen; lia).
   assert (L8 : forall x, length (u64_le x) = 8%nat) by (intros; apply le_bytes_length).
-  assert (L4 : forall x, length (u32_le x) = 4%nat) by (intros; apply le_bytes_length).
-  assert (Hn : length bs = (length bd + 20)%nat).
-  { unfold bs. rewrite !app_length, !L8, L4. lia. }
+  assert (Lck : length ckb = fl).
+  { unfold ckb, fl. destruct (3 <=? ver); [apply le_bytes_length|reflexivity]. }
+  assert (Hn : length bs = (length bd + 16 + fl)%nat).
+  { unfold bs. rewrite !app_length, !L8, Lck. lia. }
   (* header *)
-  assert (Hbd : bd = u64_le 3 ++ u64_le ty ++ skipn 16 bd).
+  assert (Hbd : bd = u64_le ver ++ u64_le ty ++ skipn 16 bd).
   { rewrite <- (firstn_skipn 16 bd) at 1. rewrite Hhdr, <- app_assoc. reflexivity. }
-  assert (H1 : firstn 8 bs = u64_le 3).
+  assert (H1 : firstn 8 bs = u64_le ver).
   { unfold bs. rewrite Hbd, <- !app_assoc. apply firstn_app_exact. apply L8. }
   assert (H2 : firstn 8 (skipn 8 bs) = u64_le ty).
   { unfold bs. rewrite Hbd, <- !app_assoc. rewrite skipn_app_exact by apply L8.
@@ -50,19 +55,26 @@ Proof.
   assert (H4 : firstn 8 (skipn (length bd + 8) bs) = u64_le root).
   { unfold bs. rewrite (app_assoc bd). rewrite skipn_app_exact by (rewrite app_length, L8; reflexivity).
     apply firstn_app_exact. apply L8. }
-  assert (H5 : firstn 4 (skipn (length bd + 16) bs) = u32_le ck).
-  { unfold bs. rewrite (app_assoc bd), (app_assoc (bd ++ _)).
+  assert (H5 : 3 <=? ver = true -> firstn 4 (skipn (length bd + 16) bs) = u32_le ck).
+  { intros H3v. unfold bs, ckb. rewrite H3v. rewrite (app_assoc bd), (app_assoc (bd ++ _)).
     rewrite skipn_app_exact by (rewrite !app_length, !L8; lia).
-    rewrite <- (app_nil_r (u32_le ck)) at 1. apply firstn_app_exact. apply L4. }
+    rewrite <- (app_nil_r (u32_le ck)) at 1. apply firstn_app_exact. apply le_bytes_length. }
   assert (H6 : firstn (length bd) bs = bd).
   { unfold bs. apply firstn_app_exact. reflexivity. }
-  unfold spec_parse. fold bs. cbv zeta. rewrite Hn, H1, H2.
-  assert (Hv3 : le_value (u64_le 3) = 3) by reflexivity. rewrite Hv3, (le_value_u64 ty Hty).
-  replace (Nat.ltb (length bd + 20) 32) with false by (symmetry; apply Nat.ltb_ge; lia).
-  change ((3 =? 0) || (3 <? 3)) with false. change (3 <=? 3) with true. cbv iota.
-  replace (Nat.ltb (length bd + 20) (16 + 20)) with false by (symmetry; apply Nat.ltb_ge; lia).
-  replace (length bd + 20 - 20)%nat with (length bd) by lia.
-  rewrite H3, H4, H5, H6, (le_value_u64 flen Hflen), (le_value_u64 root Hroot), (le_value_u32 ck Hck).
+  unfold spec_parse. fold ckb. fold bs. cbv zeta. rewrite Hn, H1, H2.
+  rewrite (le_value_u64 ver) by (unfold U64; lia). rewrite (le_value_u64 ty Hty).
+  replace (Nat.ltb (length bd + 16 + fl) 32) with false by (symmetry; apply Nat.ltb_ge; lia).
+  replace ((ver =? 0) || (3 <? ver)) with false by (symmetry; apply orb_false_iff; split; [apply N.eqb_neq|apply N.ltb_ge]; lia).
+  cbv iota.
+  assert (Hfoot : (if 3 <=? ver then 20%nat else 16%nat) = (16 + fl)%nat) by (unfold fl; destruct (3 <=? ver); reflexivity).
+  rewrite Hfoot.
+  replace (Nat.ltb (length bd + 16 + fl) (16 + (16 + fl))) with false by (symmetry; apply Nat.ltb_ge; lia).
+  replace (length bd + 16 + fl - (16 + fl))%nat with (length bd) by lia.
+  rewrite H3, H4, H6, (le_value_u64 flen Hflen), (le_value_u64 root Hroot).
+  assert (Hcks : (if 3 <=? ver then Some (le_value (firstn 4 (skipn (length bd + 16) bs))) else None) =
+                 (if 3 <=? ver then Some ck else None)).
+  { destruct (3 <=? ver) eqn:H3v; [|reflexivity]. rewrite (H5 eq_refl), (le_value_u32 ck Hck). reflexivity. }
+  rewrite Hcks.
   destruct Hcase as [(-> & ->)|(Hne & ->)].
   - change (0 =? 0) with true. cbv iota. cbn [top_addr] in Hlen.
     replace (Nat.eqb (length bd) 16) with true; [reflexivity|].
@@ -71,28 +83,46 @@ Proof.
     replace (N.of_nat (length bd) =? top_addr E + 1) with true
       by (symmetry; apply N.eqb_eq; unfold len in Hlen; lia).
     cbn [negb]. pose proof (store_top_len _ HE) as Htl.
-    rewrite (Htiles (S (length bd + 20)) []).
+    rewrite (Htiles (S (length bd + 16 + fl)) []).
     2:{ unfold len in *. lia. }
     rewrite app_nil_r. rewrite (store_targets_closed _ HE). cbn [negb].
-    rewrite (lang_store E HE (S (length bd + 20)) (top_addr E)).
+    rewrite (lang_store E HE (S (length bd + 16 + fl)) (top_addr E)).
     + reflexivity.
     + right. destruct E as [|[a s] E0]; [congruence|]. left. reflexivity.
     + unfold len in Hlen. lia.
 Qed.
 
+(* what is known about the written nodes of a finished build (used for C12) *)
+Definition final_store (p : parsed) (E2 : store) (zg : bool) (ev : N) : Prop :=
+  p_nodes p = rev E2 /\ store_ok E2 /\ tgt_ok E2 (p_root p) /\
+  (forall a0 s, In (a0, s) E2 -> a0 <> p_root p -> trimmed (bn_of s)) /\
+  (forall a0, In a0 (addrs E2) -> a0 <= p_root p) /\
+  cgood E2 /\
+  Forall (fun x => ~ is_sentinel (snd x)) (strip E2) /\
+  (forall a0, In a0 (addrs E2) -> reach E2 (p_root p) a0) /\
+  (zg = false -> ev = 0 -> NoDup (map snd (strip E2))) /\
+  elang E2 (p_root p) = p_content p.
+
 Section Main.
 Hypothesis Hcodec : codec_statement.
 Hypothesis Htotal : compile_total_statement.
 Variable ty : N.
+Variable ver : N.
+Variable zg : bool.
+Hypothesis Hver : 1 <= ver <= 3.
 
 (* ---------- the fresh builder ---------- *)
 Lemma init_inv rows cols G rem :
+  zg = (rows * cols =? 0) ->
   1 + rem <= G -> NODE_MAX * G + 100 < U64 ->
-  inv ty G rem [] [] (new_builder ty rows cols) /\ last_ok [] (new_builder ty rows cols) /\
-  cinv [] (new_builder ty rows cols).
+  inv ver ty G rem [] [] (new_builder_v ver ty rows cols) /\ last_ok [] (new_builder_v ver ty rows cols) /\
+  cinv zg [] (new_builder_v ver ty rows cols).
 Proof.
-  intros HG1 HG2. split; [|split; [reflexivity|]].
-  2:{ split; [exact I|]. unfold Cstk. cbn. split; [intros t []|exact I]. }
+  intros Hzg HG1 HG2. split; [|split; [reflexivity|]].
+  2:{ split; [exact I|]. split; [unfold Cstk; cbn; split; [intros t []|exact I]|].
+      split; [|intros a []]. split; [constructor|]. subst zg. cbn [new_builder_v b_write b_reg reg_new r_rows r_cols].
+      destruct (N.eqb_spec (rows * cols) 0) as [Hz|Hz]; [exact Hz|].
+      split; [exact Hz|]. intros _. apply BuilderBasics.reg_inv_new. exact Hz. }
   constructor.
   - split; [exact I|]. split; [|apply reg_ok_new].
     constructor; try reflexivity.
@@ -111,37 +141,39 @@ Proof.
   - cbn. lia.
   - exact I.
   - intros u _. left. reflexivity.
-  - unfold bbytes, body. cbn [new_builder new_builder_v b_write b_out rev app concat].
+  - unfold bbytes, body. cbn [new_builder_v b_write b_out rev app concat].
     rewrite app_nil_r. apply Forall_app. split; apply le_bytes_bytes.
 Qed.
 
 Lemma key_bytes_rev l : key_bytes (rev l) = key_bytes l.
-Proof.
+Proof. clear Hver.
   induction l as [|k l IH]; [reflexivity|]. cbn [rev]. rewrite key_bytes_app, IH.
   unfold key_bytes. cbn [fold_right]. lia.
 Qed.
 Lemma strim_in E a s : strim E -> In (a, s) E -> trimmed (bn_of s).
-Proof.
+Proof. clear Hver.
   induction E as [|[a0 s0] E0 IH]; intros Ht Hin; [destruct Hin|]. cbn [strim] in Ht. destruct Ht as (H1 & H2).
   destruct Hin as [Hin|Hin]; [inversion Hin; subst; exact H2|auto].
 Qed.
 
 (* ---------- into_inner ---------- *)
 Lemma b_finish_ok summer G E acc b :
-  inv ty G 0 E acc b -> ty < U64 -> (forall l, summer l < 4294967296) ->
+  inv ver ty G 0 E acc b -> ty < U64 -> (forall l, summer l < 4294967296) ->
   exists bs p, b_finish summer b = Ok bs /\ spec_parse bs = Some p /\
-    p_version p = 3 /\ p_ty p = ty /\ p_len p = len acc /\ p_content p = rev acc /\
-    p_checksum p = Some (summer (firstn (length bs - 4) bs)) /\
+    p_version p = ver /\ p_ty p = ty /\ p_len p = len acc /\ p_content p = rev acc /\
+    p_checksum p = (if 3 <=? ver then Some (summer (firstn (length bs - 4) bs)) else None) /\
     Forall (fun x => x < 256) bs /\
     fuel_ok (graph_of (node_table (p_nodes p))) (p_root p) /\
-    (cinv E b -> canonical_outputs (graph_of (node_table (p_nodes p)))) /\
-    p_root p < U64.
+    (cinv zg E b -> canonical_outputs (graph_of (node_table (p_nodes p)))) /\
+    p_root p < U64 /\
+    exists stats, b_finish_full summer b = Ok (bs, stats) /\
+      (cinv zg E b -> exists E2, final_store p E2 zg (BuilderBasics.stats_evictions stats)).
 Proof.
   intros [Hm Hs Htop Hlen Hbud HG Hna Hkb Htrim Htf Hbb] Hty Hsum.
   unfold b_finish, b_finish_full.
   destruct (compile_from b 0) as [b1 r1] eqn:Hcf.
-  destruct (compile_from_ok Hcodec Htotal ty E b (lastkey acc) (rev acc) 0 b1 r1 Hm Hs) as
-    (E1 & -> & Hm1 & F1 & F2 & Flen & Fs & _ & Ftrim & Fbb & FC); auto.
+  destruct (compile_from_ok Hcodec Htotal ty ver zg Hver E b (lastkey acc) (rev acc) 0 b1 r1 Hm Hs) as
+    (E1 & -> & Hm1 & F1 & F2 & Flen & Fs & _ & Ftrim & Fbb & FC & FGR); auto.
   { unfold len, NODE_MAX in *. lia. }
   cbn [firstn] in Fs. destruct Fs as [Fsh Fu FW Fd FL].
   destruct (b_stack b1) as [|root rest] eqn:Hst1; [destruct Fsh|]. cbn [shape] in Fsh.
@@ -151,18 +183,18 @@ Proof.
   destruct (compile b1 (u_node root)) as [b2 r2] eqn:Hc2.
   assert (Hsz1 : NODE_MAX * (len E1 + 1) + 100 < U64).
   { unfold len, NODE_MAX in *. cbn [length] in *. lia. }
-  pose proof (compile_bbytes ty E1 b1 _ b2 r2 Hm1 Hnok Hsz1 Hc2 Fbb) as Hbb2.
-  destruct (compile_ok Hcodec Htotal ty E1 b1 _ b2 r2 Hm1 Hnok Hsz1 Hc2) as (E2 & a & -> & Hm2 & _ & _ & G3 & Hcase).
+  pose proof (compile_bbytes ver ty E1 b1 _ b2 r2 Hm1 Hnok Hsz1 Hc2 Fbb) as Hbb2.
+  destruct (compile_ok Hcodec Htotal ver ty E1 b1 _ b2 r2 Hver Hm1 Hnok Hsz1 Hc2) as (E2 & a & -> & Hm2 & _ & _ & G3 & Hcase & Hstrip).
   cbn [Lstk] in FL. rewrite Hrl, app_nil_r in FL.
   (* the root is the last node written, or the whole file is the empty final node *)
   assert (Hroot : (E2 = [] /\ a = 0 \/ E2 <> [] /\ a = top_addr E2) /\
                   (if a =? 0 then [([], 0)] else elang E2 a) = rev acc /\
                   (forall a0 s, In (a0, s) E2 -> a0 <> a -> trimmed (bn_of s)) /\
-                  (cinv E b -> cgood E2)).
+                  (cinv zg E b -> cgood E2 /\ Ginv zg b2 E2 /\ (forall a0, In a0 (addrs E2) -> reach E2 a a0))).
   { destruct Hm1 as (HE1 & _). destruct Hm2 as (HE2 & _).
-    assert (HFro : cinv E b -> cgood E1 /\ Fro (elang E1) (u_node root)).
-    { intros (Hcg & HCs). destruct (FC 0 Hcg HCs) as (Hcg1 & HC1). split; [exact Hcg1|].
-      cbn [Cpost] in HC1. tauto. }
+    assert (HFro : cinv zg E b -> cgood E1 /\ Fro (elang E1) (u_node root) /\ Ginv zg b1 E1 /\ Rinv E1 [root]).
+    { intros (Hcg & HCs & HGi & HRi). destruct (FC 0 Hcg HCs) as (Hcg1 & HC1). split; [exact Hcg1|].
+      destruct (FGR HGi HRi) as (HG1 & HR1). cbn [Cpost] in HC1. tauto. }
     destruct Hcase as [(-> & [(-> & Hsen)|(s & Hin & Hsn)])|(s & -> & Hsn)].
     - (* nothing was ever written *)
       assert (E1 = []).
@@ -171,7 +203,9 @@ Proof.
         rewrite Hnt, Hrl in Fd. destruct Fd as [Fd|(Fd & _)]; [inversion Fd|congruence]. }
       subst E1. split; [left; auto|]. change (0 =? 0) with true. cbv iota.
       split; [rewrite <- FL; symmetry; apply lang_node_sentinel; exact Hsen|].
-      split; [intros a0 s []|intros _; exact I].
+      split; [intros a0 s []|]. intros Hci. destruct (HFro Hci) as (_ & _ & HG1 & _).
+      split; [exact I|]. split; [|intros a0 []].
+      apply (Ginv_step zg b1 (u_node root) b2 0 [] []); auto. rewrite none_address_1. lia.
     - (* the root cannot be an older node: it points to something at or above every written node *)
       exfalso. destruct (store_in_node_ok _ _ _ HE1 Hin) as (_ & Hlt & _).
       specialize (Fd a (store_in_addrs _ _ _ Hin)). cbn [dom] in Fd. rewrite Hrl in Fd.
@@ -185,14 +219,21 @@ Proof.
       split; [rewrite (elang_in _ _ _ HE2 Hin), Hsn; rewrite lang_node_cons; auto|].
       split.
       + intros a0 s0 [Hin0|Hin0] Hne; [inversion Hin0; congruence|]. eapply strim_in; eauto.
-      + intros Hci. destruct (HFro Hci) as (A & B). cbn [cgood]. split; [exact A|]. rewrite Hsn. exact B. }
+      + intros Hci. destruct (HFro Hci) as (A & B & HG1 & HR1). split; [cbn [cgood]; split; [exact A|]; rewrite Hsn; exact B|].
+        split.
+        * apply (Ginv_step zg b1 (u_node root) b2 a E1 ((a, s) :: E1)); auto. rewrite none_address_1. lia.
+        * intros a0 [<-|Ha0]; [constructor|]. destruct (HR1 a0 Ha0) as (x & Hx & Hreach).
+          unfold ftargets in Hx. cbn [flat_map] in Hx. rewrite app_nil_r in Hx. apply in_map_iff in Hx.
+          destruct Hx as (tx & <- & Htx). eapply reach_step; [left; reflexivity| |].
+          -- rewrite <- Hsn in Htx. exact Htx.
+          -- eapply reach_ext1; [right; eexists; reflexivity|exact Hreach]. }
   destruct Hroot as (Hroot & Hcontent & Htrim2 & Hcg2).
   destruct Hm2 as (HE2 & [B1 B2 B3 B4 B5 B6] & _).
   set (b3 := b_write b2 [u64_le (b_len b2); u64_le a]).
   assert (Hbody : concat (rev (b_out b3)) = body b2 ++ u64_le (b_len b2) ++ u64_le a ++ []).
   { change (concat (rev (b_out b3))) with (body b3). unfold b3. rewrite body_write. reflexivity. }
-  assert (Hv : b_version b3 = 3) by exact B1.
-  rewrite Hv. change (3 <=? 3) with true. cbv iota. cbn [fst].
+  assert (Hv : b_version b3 = ver) by exact B1.
+  rewrite Hv. cbn [fst].
   rewrite Hbody, app_nil_r.
   set (bd3 := body b2 ++ u64_le (b_len b2) ++ u64_le a).
   pose proof (top_addr_bound _ HE2) as Htb.
@@ -210,19 +251,19 @@ Proof.
   assert (Hra : forall a0, In a0 (addrs E2) -> a0 <= a).
   { intros a0 Ha0. destruct Hroot as [(-> & _)|(_ & ->)]; [destruct Ha0|].
     apply (store_addrs_range _ _ HE2 Ha0). }
-  exists ((bd3 ++ u32_le (summer bd3))). eexists. split; [reflexivity|].
+  exists ((bd3 ++ (if 3 <=? ver then u32_le (summer bd3) else []))). eexists. split; [reflexivity|].
   unfold bd3 at 1. rewrite <- !app_assoc.
-  rewrite (spec_parse_built ty E2 (body b2) (b_len b2) a (summer bd3)); auto.
+  rewrite (spec_parse_built ver ty E2 (body b2) (b_len b2) a (summer bd3)); auto.
   2:{ rewrite B3. exact B2. }
   split; [reflexivity|]. cbn [p_version p_ty p_len p_content p_checksum p_nodes p_root].
   rewrite Hnodes.
   split; [reflexivity|]. split; [reflexivity|]. split; [rewrite G3, F2; exact Hlen|].
   split; [exact Hcontent|]. split.
-  { do 2 f_equal. rewrite app_length. unfold u32_le at 1. rewrite le_bytes_length.
+  { destruct (3 <=? ver); [|reflexivity]. do 2 f_equal. rewrite app_length. unfold u32_le at 1. rewrite le_bytes_length.
     replace (length bd3 + 4 - 4)%nat with (length bd3) by lia.
     symmetry. apply firstn_app_exact. reflexivity. }
   split.
-  { apply Forall_app. split; [|apply le_bytes_bytes].
+  { apply Forall_app. split; [|destruct (3 <=? ver); [apply le_bytes_bytes|constructor]].
     unfold bd3. apply Forall_app. split; [exact Hbb2|]. apply Forall_app. split; apply le_bytes_bytes. }
   split.
   { (* fuel *)
@@ -233,12 +274,32 @@ Proof.
       - rewrite elang_zero. cbn. lia.
       - rewrite Hcontent. unfold pbytes, keys_of. rewrite map_rev, key_bytes_rev. rewrite N.add_0_r in Hkb. exact Hkb. }
     unfold fuel_ok. unfold NODE_MAX, U64 in HG. lia. }
-  split; [|exact Haa].
-  intros Hci. apply canonical_store; auto.
+  split; [intros Hci; apply canonical_store; auto; apply Hcg2; exact Hci|].
+  split; [exact Haa|].
+  exists (b_stats b2). split.
+  { reflexivity. }
+  intros Hci. destruct (Hcg2 Hci) as (Hc2' & (HGs & HGg) & Hreach). exists E2.
+  unfold final_store. cbn [p_nodes p_root p_content]. rewrite ?Hnodes. splits; auto.
+  - intros Hz Hev. rewrite Hz in HGg. apply (BuilderBasics.ri_nodup (b_reg b2)). apply HGg. exact Hev.
+  - destruct (N.eqb_spec a 0) as [->|_]; [apply elang_zero|reflexivity].
 Qed.
 End Main.
 
 (* ---------- the theorems ---------- *)
+Definition build_ops_v (summer : list N -> N) (ver ty rows cols : N) (ops : list op) : res (list N) :=
+  let '(b, r) := run_extend (new_builder_v ver ty rows cols) ops in
+  match r with Ok _ => b_finish summer b | Err x => Err x | Panic => Panic end.
+
+Definition built_v (summer : list N -> N) (ver ty : N) (content : kmap) (bs : list N) : Prop :=
+  exists p, spec_parse bs = Some p /\
+    p_version p = ver /\ p_ty p = ty /\ p_len p = len content /\ p_content p = content /\
+    p_checksum p = (if 3 <=? ver then Some (summer (firstn (length bs - 4) bs)) else None) /\
+    wf_fst_b bs = true /\
+    Forall (fun x => x < 256) bs /\
+    fuel_ok (graph_of (node_table (p_nodes p))) (p_root p) /\
+    canonical_outputs (graph_of (node_table (p_nodes p))) /\
+    p_root p < U64.
+
 Definition built (summer : list N -> N) (ty : N) (content : kmap) (bs : list N) : Prop :=
   exists p, spec_parse bs = Some p /\
     p_version p = 3 /\ p_ty p = ty /\ p_len p = len content /\ p_content p = content /\
@@ -249,6 +310,64 @@ Definition built (summer : list N -> N) (ty : N) (content : kmap) (bs : list N) 
     canonical_outputs (graph_of (node_table (p_nodes p))) /\
     p_root p < U64.
 
+Definition built_facts (summer : list N -> N) (ver ty : N) (content : kmap) (bs : list N) (p : parsed) : Prop :=
+    spec_parse bs = Some p /\
+    p_version p = ver /\ p_ty p = ty /\ p_len p = len content /\ p_content p = content /\
+    p_checksum p = (if 3 <=? ver then Some (summer (firstn (length bs - 4) bs)) else None) /\
+    wf_fst_b bs = true /\
+    Forall (fun x => x < 256) bs /\
+    fuel_ok (graph_of (node_table (p_nodes p))) (p_root p) /\
+    canonical_outputs (graph_of (node_table (p_nodes p))) /\
+    p_root p < U64.
+
+(* everything at once: the run, the finish with its cache counters, the parsed file, the ghost store *)
+Theorem build_ops_v_master :
+  codec_statement -> compile_total_statement ->
+  forall (summer : list N -> N) (ver ty rows cols : N) (ops : list op),
+    1 <= ver <= 3 ->
+    calls_ok ops -> Forall op_ok ops ->
+    ty < U64 -> (forall l, summer l < 4294967296) -> size_ok_ops ops ->
+    exists b bs stats p E2,
+      run_extend (new_builder_v ver ty rows cols) ops = (b, Ok tt) /\
+      b_finish_full summer b = Ok (bs, stats) /\
+      built_facts summer ver ty (spec_content None ops []) bs p /\
+      final_store p E2 (rows * cols =? 0) (BuilderBasics.stats_evictions stats).
+Proof.
+  intros Hcodec Htotal summer ver ty rows cols ops Hver Hcalls Hops Hty Hsum Hsize.
+  set (G := 1 + key_bytes (map op_key ops)). set (zg := rows * cols =? 0).
+  destruct (init_inv ty ver zg Hver rows cols G (key_bytes (map op_key ops) + 0)) as (Hi0 & Hl0 & Hc0).
+  { reflexivity. } { unfold G. lia. } { exact Hsize. }
+  destruct (run_extend_ok Hcodec Htotal ty ver zg Hver ops G 0 [] [] _ Hi0 Hl0 Hops Hcalls) as (E & acc & b & Hrun & Hinv & Hrev & HC).
+  change (b_last (new_builder_v ver ty rows cols)) with (@None key) in Hrev.
+  destruct (b_finish_ok Hcodec Htotal ty ver zg Hver summer G E acc b Hinv Hty Hsum) as
+    (bs & p & Hfin & Hparse & P1 & P2 & P3 & P4 & P5 & P6 & P7 & P8 & P9 & stats & Hfull & Hstore).
+  destruct (Hstore (HC Hc0)) as (E2 & HE2).
+  exists b, bs, stats, p, E2. split; [exact Hrun|]. split; [exact Hfull|]. split; [|exact HE2].
+  rewrite Hrev in P4. unfold built_facts. splits; auto.
+  - rewrite P3. rewrite <- Hrev. unfold len. rewrite rev_length. reflexivity.
+  - unfold wf_fst_b. rewrite Hparse, P4.
+    rewrite P3. rewrite <- Hrev at 1. replace (len acc =? len (rev acc)) with true.
+    2:{ symmetry. apply N.eqb_eq. unfold len. rewrite rev_length. reflexivity. }
+    rewrite (spec_content_sorted ops Hcalls), (spec_content_vals_b ops Hops). reflexivity.
+Qed.
+
+Theorem build_ops_v_correct_proof :
+  codec_statement -> compile_total_statement ->
+  forall (summer : list N -> N) (ver ty rows cols : N) (ops : list op),
+    1 <= ver <= 3 ->
+    calls_ok ops -> Forall op_ok ops ->
+    ty < U64 -> (forall l, summer l < 4294967296) -> size_ok_ops ops ->
+    exists bs, build_ops_v summer ver ty rows cols ops = Ok bs /\
+               built_v summer ver ty (spec_content None ops []) bs.
+Proof.
+  intros Hcodec Htotal summer ver ty rows cols ops Hver Hcalls Hops Hty Hsum Hsize.
+  destruct (build_ops_v_master Hcodec Htotal summer ver ty rows cols ops Hver Hcalls Hops Hty Hsum Hsize)
+    as (b & bs & stats & p & E2 & Hrun & Hfull & Hfacts & _).
+  exists bs. split.
+  - unfold build_ops_v. rewrite Hrun. unfold b_finish. rewrite Hfull. reflexivity.
+  - exists p. exact Hfacts.
+Qed.
+
 Theorem build_ops_correct_proof :
   codec_statement -> compile_total_statement ->
   forall (summer : list N -> N) (ty rows cols : N) (ops : list op),
@@ -257,21 +376,30 @@ Theorem build_ops_correct_proof :
     exists bs, build_ops summer ty rows cols ops = Ok bs /\ built summer ty (spec_content None ops []) bs.
 Proof.
   intros Hcodec Htotal summer ty rows cols ops Hcalls Hops Hty Hsum Hsize.
-  set (G := 1 + key_bytes (map op_key ops)).
-  destruct (init_inv ty rows cols G (key_bytes (map op_key ops) + 0)) as (Hi0 & Hl0 & Hc0).
-  { unfold G. lia. } { exact Hsize. }
-  destruct (run_extend_ok Hcodec Htotal ty ops G 0 [] [] _ Hi0 Hl0 Hops Hcalls) as (E & acc & b & Hrun & Hinv & Hrev & HC).
-  change (b_last (new_builder ty rows cols)) with (@None key) in Hrev.
-  destruct (b_finish_ok Hcodec Htotal ty summer G E acc b Hinv Hty Hsum) as
-    (bs & p & Hfin & Hparse & P1 & P2 & P3 & P4 & P5 & P6 & P7 & P8 & P9).
-  exists bs. split.
-  - unfold build_ops. rewrite Hrun. exact Hfin.
-  - rewrite Hrev in P4. exists p. splits; auto.
-    + rewrite P3. rewrite <- Hrev. unfold len. rewrite rev_length. reflexivity.
-    + unfold wf_fst_b. rewrite Hparse, P4.
-      rewrite P3. rewrite <- Hrev at 1. replace (len acc =? len (rev acc)) with true.
-      2:{ symmetry. apply N.eqb_eq. unfold len. rewrite rev_length. reflexivity. }
-      rewrite (spec_content_sorted ops Hcalls), (spec_content_vals_b ops Hops). reflexivity.
+  assert (Hv : 1 <= 3 <= 3) by lia.
+  exact (build_ops_v_correct_proof Hcodec Htotal summer 3 ty rows cols ops Hv Hcalls Hops Hty Hsum Hsize).
+Qed.
+
+(* the reference encoders of the older formats (C10) *)
+Theorem build_map_v_correct_proof :
+  codec_statement -> compile_total_statement ->
+  forall (summer : list N -> N) (ver ty : N) (kvs : kmap),
+    1 <= ver <= 3 ->
+    kmap_ok kvs = true ->
+    Forall (fun kv => Forall (fun b => b < 256) (fst kv) /\ snd kv < U64) kvs ->
+    ty < U64 -> (forall l, summer l < 4294967296) -> size_ok kvs ->
+    exists bs, build_map_v summer ver ty kvs = Ok bs /\ built_v summer ver ty kvs bs.
+Proof.
+  intros Hcodec Htotal summer ver ty kvs Hver Hk Hb Hty Hsum Hsize.
+  set (ops := map (fun '(k, v) => OpInsert k v) kvs).
+  destruct (build_ops_v_correct_proof Hcodec Htotal summer ver ty src_registry_rows src_registry_cols ops Hver)
+    as (bs & Hbs & Hbuilt); auto.
+  - apply calls_ok_map. exact Hk.
+  - unfold ops. apply Forall_map. eapply Forall_impl; [|exact Hb]. intros [k v] H. exact H.
+  - unfold size_ok_ops, size_ok in *. unfold ops. rewrite map_map.
+    replace (map (fun x => op_key (let '(k, v) := x in OpInsert k v)) kvs) with (keys_of kvs); [exact Hsize|].
+    unfold keys_of. apply map_ext. intros [k v]. reflexivity.
+  - exists bs. split; [exact Hbs|]. unfold ops in Hbuilt. rewrite (spec_content_map kvs Hk) in Hbuilt. exact Hbuilt.
 Qed.
 
 Theorem build_map_correct_proof :
@@ -310,6 +438,9 @@ Proof.
   - exists bs. split; [exact Hbs|]. rewrite (spec_content_set ks Hk) in Hbuilt. exact Hbuilt.
 Qed.
 
+Print Assumptions build_ops_v_master.
+Print Assumptions build_ops_v_correct_proof.
+Print Assumptions build_map_v_correct_proof.
 Print Assumptions build_ops_correct_proof.
 Print Assumptions build_map_correct_proof.
 Print Assumptions build_set_correct_proof.
